@@ -132,7 +132,18 @@ def _sample_spec(name):
 
 
 def build(spec):
-    """Build a real Python object from a JSON-able spec."""
+    """Build a real Python object from a JSON-able spec (and register the verdicts the
+    solver model assigned to Is[...] predicates on it)."""
+    obj = _build(spec)
+    if 'preds' in spec:
+        from . import grammar
+        for name, val in spec['preds'].items():
+            grammar.PREDS[name].table[grammar.TablePred.key(obj)] = val
+            grammar._KEEP.append(obj)
+    return obj
+
+
+def _build(spec):
     c = spec['c']
     k = KIND[c]
     if k == 'int':
@@ -314,6 +325,47 @@ class Universe:
         self._term_ids = set()
         self._samples = {n: _sample(n) for n in NAMES}
         self.fresh_n = 0
+        self.lemmas = []         # definitional constraints shared by every translation (mod terms)
+        self._mods = {}
+        self.inexact = []
+
+    # ---- Python's % (result takes the sign of the modulus); one index variable per (a, m)
+    def pymod(self, a, m):
+        key = (a.get_id(), m.get_id())
+        hit = self._mods.get(key)
+        if hit is not None:
+            return hit[0]
+        self.fresh_n += 1
+        idx = z3.Int(f'mod{self.fresh_n}')
+        self._mods[key] = (idx, a, m)
+        L = self.lemmas
+        L.append(z3.Implies(m > 0, z3.And(idx >= 0, idx < m)))
+        L.append(z3.Implies(m < 0, z3.And(idx <= 0, idx > m)))
+        L.append(z3.Implies(z3.And(m > 0, a >= 0, a < m), idx == a))
+        if z3.is_int_value(m):
+            k = m.as_long()
+            if k > 0:
+                L.append(idx == a % k)
+            elif k < 0:
+                L.append(idx == -((-a) % (-k)))
+        elif self.bound is not None:
+            rng = self.bound + 2
+            for k in range(-rng, rng + 1):
+                if k > 0:
+                    L.append(z3.Implies(m == k, idx == a % k))
+                elif k < 0:
+                    L.append(z3.Implies(m == k, idx == -((-a) % (-k))))
+            self.inexact.append(('mod-range', rng))
+        else:
+            q = z3.Int(f'quo{self.fresh_n}')
+            L.append(z3.Implies(m != 0, a == q * m + idx))
+        return idx
+
+    def constraints(self):
+        cs = self.wf_all() + list(self.lemmas)
+        if self.bound is None:
+            cs += self.axioms_unbounded()
+        return cs
 
     # ---- terms
     def obj(self, name):
@@ -362,10 +414,31 @@ class Universe:
         return self._consts[k]
 
     def pred(self, f):
-        """Uninterpreted predicate standing for user callable ``f`` (Is[f])."""
+        """Predicate standing for user callable ``f`` (Is[f]): uninterpreted, but a function
+        of the *value* for value-typed scalars (two equal ints are one Python object), of the
+        object identity otherwise.  Returns a python callable term -> z3 Bool."""
         k = id(f)
         if k not in self._preds:
-            self._preds[k] = (z3.Function(f'P{len(self._preds)}', self.Obj, z3.BoolSort()), f)
+            n = len(self._preds)
+            B = z3.BoolSort()
+            fs = {'obj': z3.Function(f'P{n}', self.Obj, B),
+                  'int': z3.Function(f'P{n}_int', z3.IntSort(), B),
+                  'bool': z3.Function(f'P{n}_bool', z3.IntSort(), B),
+                  'str': z3.Function(f'P{n}_str', z3.IntSort(), B),
+                  'bytes': z3.Function(f'P{n}_bytes', z3.IntSort(), B),
+                  'float': z3.Function(f'P{n}_float', z3.RealSort(), B),
+                  'none': z3.Bool(f'P{n}_none')}
+            U = self
+
+            def app(t, fs=fs):
+                K = U.K
+                return z3.If(U.cls(t) == K['int'], fs['int'](U.ival(t)),
+                       z3.If(U.cls(t) == K['bool'], fs['bool'](U.ival(t)),
+                       z3.If(U.cls(t) == K['str'], fs['str'](U.sval(t)),
+                       z3.If(U.cls(t) == K['bytes'], fs['bytes'](U.bval(t)),
+                       z3.If(U.cls(t) == K['float'], fs['float'](U.fval(t)),
+                       z3.If(U.cls(t) == K['NoneType'], fs['none'], fs['obj'](t)))))))
+            self._preds[k] = (app, f)
         return self._preds[k][0]
 
     # ---- class tests
@@ -625,6 +698,18 @@ class Universe:
 
     # ---- model -> spec
     def reify(self, m, t, depth=5):
+        spec = self._reify(m, t, depth)
+        if self._preds:
+            pv = {}
+            for zf, f in self._preds.values():
+                p = getattr(f, '_pred', None)
+                if p is not None:
+                    pv[p.name] = bool(z3.is_true(m.eval(zf(t), model_completion=True)))
+            if pv:
+                spec['preds'] = pv
+        return spec
+
+    def _reify(self, m, t, depth=5):
         ev = lambda e: m.eval(e, model_completion=True)
         cname = str(ev(self.cls(t)))[2:]
         if cname not in KIND:
